@@ -380,8 +380,16 @@ fn build_mc(udir: &Path, tier: Tier, sc: &uni::Scratch) -> Uni {
 		let minus_t1 = secp.blind_sum(vec![], vec![t1.offset.secret_key(secp).expect("T1 offset")]).expect("negate");
 		uni::tx_with_offset(&kc, KernelFeatures::Plain { fee: 700u32.into() }, &[build::coinbase_input(REWARD, uni::kid(5)), build::output(REWARD - 700, uni::kid(115))], &pb, 15, &grin_keychain::BlindingFactor::from_secret_key(minus_t1)).expect("T15")
 	};
+	// a valid transaction whose kernel uses the fee-shift bits (a "priority" fee: wallets leave them at 0); what a
+	// block claims for it is the fee itself, not the shifted fee
+	let t16 = {
+		let pb = ProofBuilder::new(&kc);
+		let fee = grin_core::core::FeeFields::new(2, 5000).expect("fee fields");
+		uni::tx(&kc, KernelFeatures::Plain { fee }, &[build::coinbase_input(REWARD, uni::kid(3)), build::output(REWARD - 5000, uni::kid(116))], &pb, 16).expect("T16")
+	};
 	for (n, t, k) in [
 		("T15", &t15, Kind::Plain),
+		("T16", &t16, Kind::Plain),
 		("T1", &t1, Kind::Plain),
 		("T2", &t2, Kind::Plain),
 		("T3", &t3, Kind::Plain),
@@ -637,7 +645,7 @@ fn alphabet(u: &Uni, tier: Tier) -> Vec<Op> {
 	let mut v = vec![];
 	for i in 0..u.txs.len() {
 		// T11 belongs to the capacity part, T14 to the reorg part
-		if u.txs[i].name == "T11" || u.txs[i].name == "T14" || (u.txs[i].name == "T13" && !full) {
+		if u.txs[i].name == "T11" || u.txs[i].name == "T14" || u.txs[i].name == "T16" || (u.txs[i].name == "T13" && !full) {
 			continue;
 		}
 		if u.txs[i].name == "T15" {
@@ -2272,6 +2280,7 @@ fn glue_alphabet(u: &Uni, tier: Tier) -> Vec<GOp> {
 		GOp::Submit(t("T4"), false),
 		GOp::Submit(t("T4"), true),
 		GOp::Submit(t("T9"), false),
+		GOp::Submit(t("T16"), false),
 		GOp::Connect(1, Del::None),
 		GOp::Connect(1, Del::Sync),
 		GOp::Connect(0, Del::Sync),
